@@ -1,13 +1,121 @@
 import Thanos.Common.Parse
+import Thanos.Model.CacheKeys
 /-
   Line-protocol driver of the `index` family (C11 C12 C13 C14 C16).
   One request per line, one answer per line; every line is self-contained.
+
+  C13 (cache keys) — grammar
+    str    := hex of the bytes, "-" for the empty string
+    m      := <type 0..3>,<name str>,<value str>            0 "="  1 "!="  2 "=~"  3 "!~"
+    ms     := "-" | m(;m)*
+    item   := P/<block>/<name>/<value>/<compression> | E/<block>/<ms>/<compression> | S/<block>/<id>
+    table  := "-" | <str>=<str>(,<str>=<str>)*      (argument = result of a third-party function)
+    key   <item> <quote table> <hash table>   -> hex of CacheKey.String | noquote | nohash
+    pair  <item> <item> <quote table>         -> eq | ne   (do the two keys coincide?)
+    lms   <ms> <quote table>                  -> hex of LabelMatchersToString
+    mkey  <type> <name> <value>               -> hex of the matchers-cache key
+    mpair <type> <name> <value> <type> <name> <value>  -> eq | ne
 -/
 open Thanos Thanos.Parse
 
 namespace Thanos.Driver.Index
+open Thanos.CacheKeys
 
-def handle : List String → String
-  | _ => "bad-op"
+def strOfHex? (s : String) : Option Str := (hexDecode? s).map (·.map (·.toNat))
+def hexOfStr (s : Str) : String := hexEncode (s.map UInt8.ofNat)
+
+def parseType? (s : String) : Option MatchType :=
+  match s with
+  | "0" => some .eq | "1" => some .neq | "2" => some .re | "3" => some .nre
+  | _ => none
+
+def parseMatcher? (s : String) : Option Matcher :=
+  match splitChar ',' s with
+  | [t, n, v] => do
+    let t ← parseType? t
+    let n ← strOfHex? n
+    let v ← strOfHex? v
+    pure ⟨t, n, v⟩
+  | _ => none
+
+def parseMatchers? (s : String) : Option (List Matcher) := (listOf ';' s).mapM parseMatcher?
+
+def parseItem? (s : String) : Option CacheKey :=
+  match splitChar '/' s with
+  | ["P", b, n, v, c] => do
+    let b ← strOfHex? b; let n ← strOfHex? n; let v ← strOfHex? v; let c ← strOfHex? c
+    pure ⟨b, .postings n v, c⟩
+  | ["E", b, ms, c] => do
+    let b ← strOfHex? b; let ms ← parseMatchers? ms; let c ← strOfHex? c
+    pure ⟨b, .expanded ms, c⟩
+  | ["S", b, id] => do
+    let b ← strOfHex? b; let id ← parseNat? id
+    pure ⟨b, .series id, []⟩
+  | _ => none
+
+def parseTable? (s : String) : Option (List (Str × Str)) :=
+  (listOf ',' s).mapM fun e =>
+    match splitChar '=' e with
+    | [a, b] => do
+      let a ← strOfHex? a; let b ← strOfHex? b
+      pure (a, b)
+    | _ => none
+
+def tableFn (t : List (Str × Str)) (s : Str) : Str := (t.lookup s).getD []
+
+/-- the strings an item passes to `quote` -/
+def quoted (k : CacheKey) : List Str :=
+  match k.item with
+  | .expanded ms => ms.flatMap fun m => [m.name, m.value]
+  | _ => []
+
+/-- the string an item passes to `hash` -/
+def preimage (quote : Str → Str) (k : CacheKey) : Option Str :=
+  match k.item with
+  | .postings n v => some (n ++ cColon :: v)
+  | .expanded ms => some (labelMatchersToString quote ms)
+  | .series _ => none
+
+def covers (t : List (Str × Str)) (xs : List Str) : Bool := xs.all fun x => (t.lookup x).isSome
+
+/-- injective stand-in for the hash in `pair` ops (images are outside the byte range) -/
+def standIn (s : Str) : Str := s.map (· + 256)
+
+def eqne (b : Bool) : String := if b then "eq" else "ne"
+
+def handleC13 : List String → Option String
+  | ["key", item, qt, ht] => do
+    let k ← parseItem? item
+    let qt ← parseTable? qt
+    let ht ← parseTable? ht
+    if !covers qt (quoted k) then pure "noquote" else
+    match preimage (tableFn qt) k with
+    | some p => if !covers ht [p] then pure "nohash" else
+                pure (hexOfStr (keyString (tableFn ht) (tableFn qt) k))
+    | none => pure (hexOfStr (keyString (tableFn ht) (tableFn qt) k))
+  | ["pair", i1, i2, qt] => do
+    let k1 ← parseItem? i1
+    let k2 ← parseItem? i2
+    let qt ← parseTable? qt
+    if !covers qt (quoted k1 ++ quoted k2) then pure "noquote" else
+    pure (eqne (keyString standIn (tableFn qt) k1 == keyString standIn (tableFn qt) k2))
+  | ["lms", ms, qt] => do
+    let ms ← parseMatchers? ms
+    let qt ← parseTable? qt
+    if !covers qt (ms.flatMap fun m => [m.name, m.value]) then pure "noquote" else
+    pure (hexOfStr (labelMatchersToString (tableFn qt) ms))
+  | ["mkey", t, n, v] => do
+    let m ← parseMatcher? s!"{t},{n},{v}"
+    pure (hexOfStr (matcherKey m))
+  | ["mpair", t1, n1, v1, t2, n2, v2] => do
+    let m1 ← parseMatcher? s!"{t1},{n1},{v1}"
+    let m2 ← parseMatcher? s!"{t2},{n2},{v2}"
+    pure (eqne (matcherKey m1 == matcherKey m2))
+  | _ => none
+
+def handle (toks : List String) : String :=
+  match handleC13 toks with
+  | some r => r
+  | none => "bad-op"
 
 end Thanos.Driver.Index
